@@ -226,8 +226,6 @@ def lone_script_cases(slice_len):
                         body += [("spawn", "c2")]
                     body += compose(tail, pcounter)
                     if who == "main":
-                        if not body or body[0][0] != "spawn":
-                            pass
                         main = body
                     else:
                         scripts["p"] = body
@@ -637,6 +635,16 @@ def main(replay=None):
         if marks != exp_marks:
             k = next((n for n, (a, b) in enumerate(zip(marks, exp_marks)) if a != b), min(len(marks), len(exp_marks)))
             rep["first_difference"] = {"index": k, "impl": marks[k:k + 3], "round_robin": exp_marks[k:k + 3]}
+
+            def owner(m):
+                return int(m) // 10000 if m.isdigit() else -1
+            runlen = 0
+            while k + runlen < len(marks) and owner(marks[k + runlen]) == owner(marks[k]) and owner(marks[k]) >= 0:
+                runlen += 1
+            if k < len(exp_marks) and runlen > slice_len // 2 + 1 and owner(exp_marks[k]) != owner(marks[k]):
+                run.violation("slices are not bounded: script %d logged %d statements in a row (more than a slice of %d instructions holds) "
+                              "while script %d was waiting for its turn" % (owner(marks[k]), runlen, slice_len, owner(exp_marks[k])), rep)
+                continue
             run.violation("the global order of markers is not the round-robin order of %d-instruction slices "
                           "(sleep / terminate / scriptDone taken into account)" % slice_len, rep)
             continue
